@@ -7,4 +7,5 @@ mkdir -p work/bin evidence replays
 ./lib/coqproject.sh && ( cd coq && flock .lock timeout 3000 make -j16 $(python3 ../lib/setup_targets.py) )
 export GOFLAGS=-mod=mod GOPROXY=off GOSUMDB=off GOTOOLCHAIN=local CGO_ENABLED=0
 ( cd harness && cp /repo/go.sum go.sum && go build -tags verif -o ../work/bin/impl_driver . )  # warms the Go build cache; checks rebuild per property
+python3 -c "import sys; sys.path.insert(0, 'lib'); import core; ok, out = core.ocaml_build(); print(out[-2000:] if not ok else 'model driver built'); sys.exit(0 if ok else 1)"
 echo setup done
